@@ -680,10 +680,23 @@ func (in *Interp) vfsLookup(p Str, op string) (*vfile, string) {
 			d = path.Dir(d)
 		}
 	}
+	if f == nil {
+		// a regular file used as a directory: ENOTDIR, which is not ErrNotExist
+		for d := path.Dir(clean); d != "/" && d != "."; d = path.Dir(d) {
+			if df := in.VFS[d]; df != nil && !df.isDir {
+				in.notDir = true
+				break
+			}
+		}
+	}
 	return f, name
 }
 
 func (in *Interp) pathError(op, name, what string, notExist bool) Value {
+	if in.notDir {
+		in.notDir = false
+		what, notExist = "not a directory", false
+	}
 	msg := Str{S: op + " " + name + ": " + what}
 	if notExist && in.W.FmtWrapError != nil {
 		p := new(Value)
